@@ -10,7 +10,7 @@ ASSUMPTIONS = [
   "strings (length <= 2) over printable non-blank characters; they stay symbolic through stripped() (regex match, splitlines, strip)",
   "timestamps are texts in strftime's '%Y-%m-%d %H:%M:%S.%f' format handed through a stub clock (CrossHair replaces the datetime module "
   "under tracing); the perturbed copy uses other timestamps, "
-  "a symbolic number of blank lines between records and symbolic leading/trailing blanks or tabs around lines",
+  "a symbolic number of blank lines between records (empty, or holding only blanks / tabs) and symbolic leading/trailing blanks or tabs around lines",
   "weaker reading for a single line: its timestamp (and leading spaces) are removed; trailing blanks around a single line are not asserted",
 ]
 OUTSIDE = ["names containing whitespace or line-breaking characters (splitlines splits there; miros never produces them in state names)",
@@ -68,7 +68,9 @@ def build(name, sig, a, b, nrec, blanks, lead, trail, tabs):
       ra = chart.TraceTuple(datetime=STAMPS_A[i], start_state=a, signal=sig + str(i), payload=None, end_state=b)
       rb = chart.TraceTuple(datetime=STAMPS_B[i], start_state=a, signal=sig + str(i), payload=None, end_state=b)
       A += chart.trace_tuple_to_formatted_string(ra)
-      B += pad * lead + chart.trace_tuple_to_formatted_string(rb).rstrip("\n") + pad * trail + "\n" + "\n" * blanks
+      # blank lines between records: truly empty ones, or (tabs variant) lines holding only blanks / tabs
+      blank = "\n" if not tabs else (pad * (1 + lead) + "\n")
+      B += pad * lead + chart.trace_tuple_to_formatted_string(rb).rstrip("\n") + pad * trail + "\n" + blank * blanks
       want.append("[" + name + "] e->" + sig + str(i) + "() " + a + "->" + b)
   finally:
     hsm.stdlib_datetime = real
@@ -82,7 +84,7 @@ STATES = ["a", "Zz9_"]
 def pre(v, lim):
   if v["nrec"] > lim["R"] or v["blanks"] > lim["B"] or v["lead"] > lim["W"] or v["trail"] > lim["W"]:
     return False
-  if v["tabs"] and v["lead"] == 0 and v["trail"] == 0:
+  if v["tabs"] and v["lead"] == 0 and v["trail"] == 0 and v["blanks"] == 0:
     return False
   return True
 
